@@ -348,6 +348,33 @@ func (d *Doc) Number() {
 		walk(n)
 	}
 	d.NUnits = u
+	// structural trigger: a bottom margin enclosed by the bottom padding / border of an ancestor
+	// that ends with it
+	var lastChainHasMb func(n *Node) bool
+	lastChainHasMb = func(n *Node) bool {
+		if n.Kind != KBlk || len(n.Kids) == 0 {
+			return false
+		}
+		l := n.Kids[len(n.Kids)-1]
+		return (l.Kind == KBlk && l.Mb > 0) || lastChainHasMb(l)
+	}
+	var scan func(n *Node)
+	scan = func(n *Node) {
+		if n.Kind == KBlk {
+			if n.Pb+n.Bbw > 0 && lastChainHasMb(n) {
+				if d.Tags == nil {
+					d.Tags = map[string]bool{}
+				}
+				d.Tags["mb-inside-pb"] = true
+			}
+			for _, k := range n.Kids {
+				scan(k)
+			}
+		}
+	}
+	for _, n := range d.Flow {
+		scan(n)
+	}
 }
 
 func (d *Doc) TagList() []string {
